@@ -351,6 +351,23 @@ func (c *Ctx) Bin(op Op, a, b *T) *T {
 		if a == b {
 			return c.Const(w, 0)
 		}
+		// (x ^ y) ^ y => x   (masking followed by unmasking)
+		if a.Op == OXor {
+			if a.B == b {
+				return a.A
+			}
+			if a.A == b {
+				return a.B
+			}
+		}
+		if b.Op == OXor {
+			if b.B == a {
+				return b.A
+			}
+			if b.A == a {
+				return b.B
+			}
+		}
 	case OShl, OLShr, OAShr:
 		if b.IsConst() && b.K == 0 {
 			return a
